@@ -7,6 +7,8 @@
 package packet
 
 import (
+	"io"
+
 	"github.com/Comcast/gots/v2"
 )
 
@@ -1099,5 +1101,72 @@ func afCopiedByte(dst AdaptationField, src AdaptationField, j int) byte {
 //@   ensures err == nil ==> len(pay) == 188-specHdrLen(packet) && &pay[0] == &packet[specHdrLen(packet)]
 //@   ensures err != nil ==> pay == nil
 //@   modifies nothing
+
+// ---------------------------------------------------------------- C16: sync search
+
+// specScanner is the reader model C16 quantifies over: a byte stream s and a position. It
+// behaves like bufio.Reader on a finite stream: ReadByte/UnreadByte move the position, Peek
+// returns a view of the next bytes and io.EOF together with a short view at the end.
+type specScanner struct {
+	s   []byte
+	pos int
+}
+
+func (m *specScanner) ReadByte() (byte, error) {
+	if m.pos < len(m.s) {
+		b := m.s[m.pos]
+		m.pos++
+		return b, nil
+	}
+	return 0, io.EOF
+}
+
+func (m *specScanner) UnreadByte() error {
+	m.pos--
+	return nil
+}
+
+func (m *specScanner) Peek(n int) ([]byte, error) {
+	if m.pos+n <= len(m.s) {
+		return m.s[m.pos : m.pos+n], nil
+	}
+	return m.s[m.pos:], io.EOF
+}
+
+func specScannerOf(r Peeker) *specScanner {
+	m, _ := r.(*specScanner)
+	return m
+}
+
+// specPlausible: position k holds 0x47 followed by a header whose adaptation_field_control is
+// not 00 and whose PID is outside the reserved range 0x0004-0x000F.
+func specPlausible(s []byte, k int) bool {
+	if k < 0 || k+4 > len(s) || s[k] != 0x47 || (s[k+3]/16)%4 == 0 {
+		return false
+	}
+	pid := int(s[k+1]%32)*256 + int(s[k+2])
+	return pid < 4 || pid > 15
+}
+
+//@ func IsSynced(r Peeker) (ok bool, err error)
+//@   props C16
+//@   requires specScannerOf(r) != nil && 0 <= specScannerOf(r).pos && specScannerOf(r).pos <= len(specScannerOf(r).s)
+//@   ensures ok == specPlausible(specScannerOf(r).s, specScannerOf(r).pos)
+//@   ensures (err != nil) == (specScannerOf(r).pos+4 > len(specScannerOf(r).s)) && (err != nil ==> err == io.EOF)
+//@   modifies nothing
+
+//@ func Sync(r PeekScanner) (off int64, err error)
+//@   props C16
+//@   requires specScannerOf(r) != nil && 0 <= specScannerOf(r).pos && specScannerOf(r).pos <= len(specScannerOf(r).s)
+//@   ensures err == nil || err == gots.ErrSyncByteNotFound
+//@   ensures err == nil ==> specScannerOf(r).pos == old(specScannerOf(r).pos)+int(off) && specPlausible(specScannerOf(r).s, specScannerOf(r).pos)
+//@   ensures err == nil ==> forall k in old(specScannerOf(r).pos)..specScannerOf(r).pos :: !specPlausible(specScannerOf(r).s, k)
+//@   ensures err != nil ==> forall k in old(specScannerOf(r).pos)..len(specScannerOf(r).s) :: !specPlausible(specScannerOf(r).s, k)
+//@   modifies specScannerOf(r).pos
+//@   loop 1 (off int64)
+//@     invariant specScannerOf(r) != nil && 0 <= off && old(specScannerOf(r).pos) <= specScannerOf(r).pos && specScannerOf(r).pos <= len(specScannerOf(r).s)
+//@     invariant specScannerOf(r).pos == old(specScannerOf(r).pos)+int(off)
+//@     invariant forall k in old(specScannerOf(r).pos)..specScannerOf(r).pos :: !specPlausible(specScannerOf(r).s, k)
+//@     decreases len(specScannerOf(r).s) - specScannerOf(r).pos
 
 var _ = gots.ErrNoPayload
